@@ -189,7 +189,7 @@ ENUMS = {
     'Option': ['None', 'Some'], 'Result': ['Ok', 'Err'], 'ControlFlow': ['Continue', 'Break'],
     'StarlarkInt': ['Small', 'Big'], 'StarlarkIntRef': ['Small', 'Big'],
     'NumRef': ['Int', 'Float'], 'Num': ['Int', 'Float'], 'Sign': ['Minus', 'NoSign', 'Plus'],
-    'Either': ['Left', 'Right'],
+    'Either': ['Left', 'Right'], 'EitherOrBoth': ['Both', 'Left', 'Right'],      # itertools declaration order
 }
 ORDERING = {'Less': -1, 'Equal': 0, 'Greater': 1}
 
